@@ -67,7 +67,10 @@ def main():
                 H0 = P.ProtocolHandler
                 if c.get('handler') == 'lazy':      # compiled build: LazyParser; pure build: the one pure decoder
                     H0 = getattr(P, 'LazyProtocolHandler', None) or P.ProtocolHandler
-                msg = H0.decode_message(c['pv'], {}, 0, 0, 8, bytes.fromhex(c['body']), None, None)
+                rm = None
+                if c.get('result_metadata') is not None:
+                    rm = [(ks, tb, nm, T.lookup_casstype(tn)) for ks, tb, nm, tn in c['result_metadata']]
+                msg = H0.decode_message(c['pv'], {}, 0, 0, 8, bytes.fromhex(c['body']), None, rm)
                 msg.parsed_rows = list(msg.parsed_rows)
                 if c.get('digest_rows'):
                     import hashlib
